@@ -398,11 +398,85 @@ Proof.
   split; [exact S2 | tauto].
 Qed.
 
+(* ---------- the public listing paths ---------- *)
+Lemma lok_flatten : forall c s a l x l', lok c s a l -> list_flatten l = (x, l') ->
+  lok c s a l' /\ x = l_txs l /\ l_txs l' = l_txs l.
+Proof.
+  intros c s a l x l' L E. destruct (list_flatten_spec _ _ _ (lk_wf _ _ _ _ L) E) as [Hx [W' [Ht [_ [Hs _]]]]].
+  split; [|tauto]. split; [exact W' | rewrite Hs; apply (lk_strict _ _ _ _ L) | rewrite Ht; apply (lk_mem _ _ _ _ L)].
+Qed.
+
+Lemma flatten_pending_RS : forall a st, SInv st ->
+  RS st (snd (flatten_pending a st)) /\
+  fst (flatten_pending a st) = match p_pending st a with Some l => l_txs l | None => [] end.
+Proof.
+  intros a st HS. unfold flatten_pending. destruct (p_pending st a) as [l|] eqn:Ep; [|split; [apply RS_refl, HS | reflexivity]].
+  destruct (list_flatten l) as [x l'] eqn:E. destruct (s_pw _ HS a l Ep) as [L Ha].
+  destruct (lok_flatten _ _ _ _ _ _ L E) as [L' [Hx Ht]]. cbn [fst snd]. split; [|exact Hx].
+  split; [|split; reflexivity].
+  apply (S_upd1 st _ a (Some l') (p_queue st a) HS); cbn; try reflexivity.
+  - intros b. unfold upd. destruct (b =? a) eqn:Eb; [apply N.eqb_eq in Eb; subst; reflexivity | reflexivity].
+  - intros l0 Hl. inversion Hl; subst. tauto.
+  - intros l0 Hl. apply (s_qw _ HS a l0 Hl).
+  - intros pl ql t Hp Hq Ht'. inversion Hp; subst pl. rewrite Ht. apply (s_disj _ HS a l ql t Ep Hq Ht').
+  - intros t. rewrite (s_union _ HS t). unfold inP, inQ. cbn [in_opt]. rewrite Ht.
+    destruct (N.eq_dec (t_from t) a) as [Ea|Ea]; [rewrite Ea, Ep; cbn [in_opt]; tauto | tauto].
+  - exact (SInv_AInv _ HS).
+  - exact (s_panic _ HS).
+Qed.
+
+Lemma flatten_queue_RS : forall a st, SInv st ->
+  RS st (snd (flatten_queue a st)) /\
+  fst (flatten_queue a st) = match p_queue st a with Some l => l_txs l | None => [] end.
+Proof.
+  intros a st HS. unfold flatten_queue. destruct (p_queue st a) as [l|] eqn:Eq; [|split; [apply RS_refl, HS | reflexivity]].
+  destruct (list_flatten l) as [x l'] eqn:E. destruct (s_qw _ HS a l Eq) as [L Ha].
+  destruct (lok_flatten _ _ _ _ _ _ L E) as [L' [Hx Ht]]. cbn [fst snd]. split; [|exact Hx].
+  split; [|split; reflexivity].
+  apply (S_upd1 st _ a (p_pending st a) (Some l') HS); cbn; try reflexivity.
+  - intros b. unfold upd. destruct (b =? a) eqn:Eb; [apply N.eqb_eq in Eb; subst; reflexivity | reflexivity].
+  - intros l0 Hl. apply (s_pw _ HS a l0 Hl).
+  - intros l0 Hl. inversion Hl; subst. tauto.
+  - intros pl ql t Hp Hq Ht'. inversion Hq; subst ql. rewrite Ht in Ht'. apply (s_disj _ HS a pl l t Hp Eq Ht').
+  - intros t. rewrite (s_union _ HS t). unfold inP, inQ. cbn [in_opt]. rewrite Ht.
+    destruct (N.eq_dec (t_from t) a) as [Ea|Ea]; [rewrite Ea, Eq; cbn [in_opt]; tauto | tauto].
+  - exact (SInv_AInv _ HS).
+  - exact (s_panic _ HS).
+Qed.
+
+Lemma pool_ContentFrom_RS : forall a st, SInv st -> RS st (snd (pool_ContentFrom a st)).
+Proof.
+  intros a st HS. unfold pool_ContentFrom. destruct (flatten_pending_RS a st HS) as [R1 _].
+  destruct (flatten_pending a st) as [p st1]. cbn [snd] in R1.
+  eapply RS_step; [exact R1|]. intros S1. destruct (flatten_queue_RS a st1 S1) as [R2 _].
+  destruct (flatten_queue a st1) as [q st2]. exact R2.
+Qed.
+
+Lemma content_fold_RS : forall accts st0 acc s, RS st0 s ->
+  RS st0 (snd (fold_left (fun '(acc, s) a => let '(pq, s') := pool_ContentFrom a s in (acc ++ [pq], s')) accts (acc, s))).
+Proof.
+  induction accts as [|a accts IH]; intros st0 acc s R; cbn [fold_left snd]; [exact R|].
+  pose proof (fun S1 => pool_ContentFrom_RS a s S1) as R1. destruct (pool_ContentFrom a s) as [pq s']. cbn [snd] in R1.
+  apply IH. eapply RS_step; [exact R | exact R1].
+Qed.
+Lemma pool_Content_RS : forall st, SInv st -> RS st (snd (pool_Content st)).
+Proof. intros st HS. unfold pool_Content. apply content_fold_RS, RS_refl, HS. Qed.
+
+Lemma pending_fold_RS : forall accts st0 acc s, RS st0 s ->
+  RS st0 (snd (fold_left (fun '(acc, s) a => let '(p, s') := flatten_pending a s in (acc ++ [p], s')) accts (acc, s))).
+Proof.
+  induction accts as [|a accts IH]; intros st0 acc s R; cbn [fold_left snd]; [exact R|].
+  pose proof (fun S1 => proj1 (flatten_pending_RS a s S1)) as R1. destruct (flatten_pending a s) as [p s']. cbn [snd] in R1.
+  apply IH. eapply RS_step; [exact R | exact R1].
+Qed.
+Lemma pool_Pending_RS : forall st, SInv st -> RS st (snd (pool_Pending st)).
+Proof. intros st HS. unfold pool_Pending. apply pending_fold_RS, RS_refl, HS. Qed.
+
 (* ---------- histories ---------- *)
 Definition op_ok (c : cfg) (o : op) : Prop :=
   match o with
   | OpAdd txs => forall t, In t txs -> okt c t
-  | OpSetGasTip _ => True
+  | OpSetGasTip _ | OpContent | OpContentFrom _ | OpPending => True
   | OpReset _ _ _ => False
   end.
 
@@ -415,10 +489,13 @@ Qed.
 
 Lemma step_RS : forall st o, SInv st -> op_ok (p_cfg st) o -> RS st (step st o).
 Proof.
-  intros st [txs|b o n|tip] HS Hok; cbn [step].
+  intros st [txs|b o n|tip| |a| ] HS Hok; cbn [step].
   - apply pool_Add_RS; assumption.
   - destruct Hok.
   - apply pool_SetGasTip_RS, HS.
+  - apply pool_Content_RS, HS.
+  - apply pool_ContentFrom_RS, HS.
+  - apply pool_Pending_RS, HS.
 Qed.
 
 Lemma history_SInv : forall h st, SInv st -> Forall (op_ok (p_cfg st)) h ->
